@@ -12,6 +12,10 @@ from .index import AnalysisError
 from . import norm
 
 
+NODE_MODULE = {}   # id(statement node of a loaded module) -> Module: lets the evaluator find the module the evaluated code lives in
+NODE_CLASS = {}    # id(statement node inside a class) -> [ClassDef of the class, ClassDefs of its bases defined in the same module]
+
+
 class TinyRaise(Exception):
     """The evaluated code would raise this (built-in) exception on the cell."""
 
@@ -104,6 +108,16 @@ class Tiny:
         self.opaque_globals = opaque_globals  # opt-in: a dotted global the rule did not bind (module.Class.CONST) is an opaque object
         self.model_types = model_types  # opt-in: type()/isinstance()/builtin type names answered from the Python type of the model value
         self.env = dict(env)  # text -> value
+        # `obj.attr` cells given without the object itself (msg.request, msg.args ...): the object exists too, holding exactly those attributes, so that
+        # code which hands the whole object to a helper (`_args_of(handler, msg)`) reads the same cells through the helper's parameter
+        roots = {}
+        for k_ in self.env:
+            if k_.count(".") == 1 and "(" not in k_ and "[" not in k_:
+                r_, a_ = k_.split(".")
+                if r_.isidentifier() and a_.isidentifier() and r_ != "self" and r_ not in self.env and not r_[:1].isupper():
+                    roots.setdefault(r_, {})[a_] = self.env[k_]
+        for r_, attrs_ in roots.items():
+            self.env[r_] = Sym(r_, **attrs_)
         self.calls = calls or {}  # text of call -> value
         self.default_call = default_call  # (function text, evaluated args) -> value, for calls not listed in `calls`
         self.trace = []  # (text of call, evaluated args) for calls seen in expression statements / values
@@ -121,6 +135,11 @@ class Tiny:
             return [self.ev(x) for x in e.elts]
         if isinstance(e, ast.Dict):
             return {self.ev(k): self.ev(v) for k, v in zip(e.keys, e.values) if k is not None}
+        if isinstance(e, ast.Set):
+            try:
+                return {self.ev(x) for x in e.elts}
+            except TypeError:
+                raise TinyRaise("TypeError")
         if isinstance(e, (ast.Name, ast.Attribute)):
             t = norm.text(e)
             if t in self.env:
@@ -134,6 +153,23 @@ class Tiny:
                     return base.attrs[e.attr]
             if self.model_types and isinstance(e, ast.Name) and t in _PYTYPES:
                 return _PYTYPES[t]
+            if isinstance(e, ast.Attribute) and isinstance(e.value, ast.Name) and e.value.id == "self" and getattr(self, "klass", None) is not None:
+                # a class-level table / constant given as a literal (`_NAMES = ("a", "b")` in the class body, read as self._NAMES)
+                for k_ in self.klass:
+                    for st_ in k_.body:
+                        if isinstance(st_, ast.Assign) and len(st_.targets) == 1 and isinstance(st_.targets[0], ast.Name) and st_.targets[0].id == e.attr:
+                            try:
+                                v_ = ast.literal_eval(st_.value)
+                            except (ValueError, TypeError, SyntaxError):
+                                continue
+                            if isinstance(v_, (tuple, list, dict, set, frozenset, int, str, bytes, bool)) or v_ is None:
+                                return _from_py(list(v_) if isinstance(v_, tuple) else v_) if self.model_strings else (list(v_) if isinstance(v_, tuple) else v_)
+            if isinstance(e, ast.Name) and getattr(self, "module", None) is not None and t in getattr(self.module, "consts", {}):
+                # a module-level table / constant given as a literal
+                try:
+                    return _from_py(ast.literal_eval(self.module.consts[t])) if self.model_strings else ast.literal_eval(self.module.consts[t])
+                except (ValueError, TypeError, SyntaxError):
+                    pass
             if self.opaque_globals and t:
                 root = t.split(".")[0].split("[")[0].split("(")[0]
                 if root != "self" and root not in self.env and isinstance(e, ast.Attribute):
@@ -283,8 +319,19 @@ class Tiny:
                 raise TinyRaise("TypeError")
         if isinstance(e, ast.IfExp):
             return self.ev(e.body) if self.truth(self.ev(e.test)) else self.ev(e.orelse)
+        if isinstance(e, ast.NamedExpr) and isinstance(e.target, ast.Name):
+            v = self.ev(e.value)
+            self.env[e.target.id] = v
+            return v
         if isinstance(e, ast.Lambda):
             return Sym("lambda")  # an opaque callable: what it does when called later is outside the cell
+        if isinstance(e, ast.Call) and isinstance(e.func, ast.Call) and isinstance(e.func.func, ast.Name) and e.func.func.id == "getattr" and len(e.func.args) == 2 \
+                and not e.func.keywords and "getattr" not in self.calls:
+            # getattr(x, <name known on the cell>)(...) is the method call x.<name>(...)
+            nm_ = self.ev(e.func.args[1])
+            if isinstance(nm_, str) and nm_.isidentifier():
+                call2 = ast.copy_location(ast.Call(func=ast.copy_location(ast.Attribute(value=e.func.args[0], attr=nm_, ctx=ast.Load()), e.func), args=e.args, keywords=e.keywords), e)
+                return self.ev(call2)
         if isinstance(e, ast.Call):
             t = norm.text(e)
             f = norm.text(e.func)
@@ -395,6 +442,12 @@ class Tiny:
                         raise TinyRaise("TypeError")
             if f == "bool" and len(e.args) == 1 and not e.keywords and "bool" not in self.calls and self.model_types:
                 return self.truth(self.ev(e.args[0]))
+            if f == "setattr" and len(e.args) == 3 and not e.keywords and "setattr" not in self.calls:
+                nm = self.ev(e.args[1])
+                if isinstance(nm, str) and nm.isidentifier():
+                    # setattr(x, "name", v) with a known name is the attribute store x.name = v
+                    self._run([ast.copy_location(ast.Assign(targets=[ast.copy_location(ast.Attribute(value=e.args[0], attr=nm, ctx=ast.Store()), e)], value=e.args[2], type_comment=None), e)])
+                    return None
             if f == "getattr" and len(e.args) == 2 and not e.keywords:
                 nm = self.ev(e.args[1])
                 if isinstance(nm, str) and nm.isidentifier():
@@ -470,7 +523,7 @@ class Tiny:
                 r = self.calls[f]
                 return r(*args) if callable(r) else r
             callee = None
-            if isinstance(e.func, (ast.Name, ast.Attribute, ast.Subscript)):
+            if isinstance(e.func, (ast.Name, ast.Attribute, ast.Subscript, ast.IfExp, ast.BoolOp)):   # also a callee chosen by an expression: (A if c else B)(x)
                 try:
                     callee = self.ev(e.func)
                 except (AnalysisError, TinyRaise):
@@ -499,11 +552,60 @@ class Tiny:
                     return callee.methods["__call__"](*args, **kwargs)
                 self.trace.append((f, args, kwargs))
                 try:
-                    return self.default_call(f, args, kwargs)
+                    r_ = self.default_call(f, args, kwargs)
                 except TypeError:
-                    return self.default_call(f, args)
+                    r_ = self.default_call(f, args)
+                # the rule's oracle does not know the callee (it gave the conventional opaque answer) and the callee is a private helper function
+                # of the module the evaluated code lives in: the helper is evaluated in place, like a private method with `inline_self`
+                if isinstance(e.func, ast.Name) and e.func.id.startswith("_") and not e.func.id.startswith("__") and isinstance(r_, Sym) and r_.name == f"<{f}>":
+                    node = self._module_func(e.func.id)
+                    if node is not None:
+                        return self._call_module_func(node, args, kwargs)
+                return r_
             raise AnalysisError(f"tiny: call {t[:60]}")
         raise AnalysisError(f"tiny: expression {ast.unparse(e)[:60]}")
+
+    def _module_func(self, name):
+        m = getattr(self, "module", None)
+        if m is None:
+            return None
+        f_ = getattr(m, "funcs", {}).get(name)
+        if f_ is None or f_.node.decorator_list or f_.node.args.vararg or f_.node.args.kwarg or not isinstance(f_.node, ast.FunctionDef):
+            return None
+        return f_.node
+
+    def _call_module_func(self, node, args, kwargs):
+        depth = getattr(self, "_depth", 0)
+        if depth > 8:
+            raise AnalysisError("tiny: inlining too deep")
+        names = [x.arg for x in node.args.posonlyargs + node.args.args]
+        if len(args) > len(names):
+            raise TinyRaise("TypeError")
+        env = {k: v for k, v in self.env.items() if ("." in k and not k.startswith("self")) or (k.isidentifier() and k[:1].isupper())}
+        bound = set()
+        for n_, v in zip(names, args):
+            env[n_] = v
+            bound.add(n_)
+        for k, v in kwargs.items():
+            if k not in names or k in bound:
+                raise TinyRaise("TypeError")
+            env[k] = v
+            bound.add(k)
+        defaults = dict(zip(names[len(names) - len(node.args.defaults):], node.args.defaults))
+        for n_ in names:
+            if n_ not in bound:
+                if n_ not in defaults:
+                    raise TinyRaise("TypeError")
+                env[n_] = self.ev(defaults[n_])
+        sub = Tiny(env, calls=self.calls, default_call=self.default_call, model_types=self.model_types, opaque_globals=self.opaque_globals, inline_self=None,
+                   model_strings=self.model_strings, local_defs=True)
+        sub.module = self.module
+        sub._depth = depth + 1
+        sub.trace = self.trace
+        r = sub.run([x for x in node.body if not (isinstance(x, ast.Expr) and isinstance(x.value, ast.Constant))])
+        if r[0] == "raise":
+            raise TinyRaise(r[1])
+        return r[1] if r[0] == "return" else None
 
     def _call_local(self, node, args, kwargs):
         depth = getattr(self, "_depth", 0)
@@ -532,6 +634,7 @@ class Tiny:
         sub = Tiny(env, calls=self.calls, default_call=self.default_call, model_types=self.model_types, opaque_globals=self.opaque_globals, inline_self=self.inline_self,
                    model_strings=self.model_strings, local_defs=self.local_defs)
         sub._depth = depth + 1
+        sub.module = getattr(self, "module", None)
         sub.trace = self.trace
         r = sub.run([x for x in node.body if not (isinstance(x, ast.Expr) and isinstance(x.value, ast.Constant))])
         nonlocal_names = {n_ for x in ast.walk(node) if isinstance(x, ast.Nonlocal) for n_ in x.names}
@@ -576,6 +679,8 @@ class Tiny:
         sub = Tiny(env, calls=self.calls, default_call=self.default_call, model_types=self.model_types, opaque_globals=self.opaque_globals, inline_self=self.inline_self,
                    model_strings=self.model_strings)
         sub._depth = depth + 1
+        sub.module = getattr(self, "module", None)
+        sub.klass = getattr(self, "klass", None)
         sub.trace = self.trace
         r = sub.run([x for x in node.body if not (isinstance(x, ast.Expr) and isinstance(x.value, ast.Constant))])
         for k, v in sub.env.items():
@@ -624,6 +729,10 @@ class Tiny:
 
     def run(self, stmts, stop=None):
         """Execute statements; returns ('fall', None) / ('return', value) / ('raise', what) / ('stop', stmt)."""
+        if getattr(self, "module", None) is None and stmts:
+            self.module = NODE_MODULE.get(id(stmts[0]))
+        if getattr(self, "klass", None) is None and stmts and id(stmts[0]) in NODE_CLASS:
+            self.klass = NODE_CLASS[id(stmts[0])]
         try:
             return self._run(stmts, stop)
         except TinyRaise as ex:
@@ -849,3 +958,30 @@ class Sym:
 
     def __repr__(self):
         return f"<{self.name}{'' if self.truthy else ' (falsy)'}>"
+
+
+class _OpenAttrs(dict):
+    """attribute table of an OpenSym: every attribute exists; one not given explicitly is an opaque value of its own (created on first read, then stable)"""
+
+    def __init__(self, owner, given):
+        dict.__init__(self, given)
+        self._owner = owner
+
+    def __contains__(self, k):
+        return True
+
+    def __missing__(self, k):
+        v = Sym(f"{self._owner}.{k}")
+        self[k] = v
+        return v
+
+    def get(self, k, d=None):
+        return self[k]
+
+
+class OpenSym(Sym):
+    """An opaque record all of whose attributes can be read (those not given are opaque values): a message, a request record ..."""
+
+    def __init__(self, name, truthy=True, methods=None, **attrs):
+        Sym.__init__(self, name, truthy, methods)
+        self.attrs = _OpenAttrs(name, attrs)
